@@ -1,6 +1,7 @@
 import NbdimeProofs.Lemmas.SeqAbstract
 import NbdimeModel
 import NbdimeProofs.Lemmas.Resolve
+import NbdimeProofs.Lemmas.MergeDisjoint
 /-
   C06 — changes at separate positions combine. Locality of Python's `patch_list` cursor semantics:
   a diff whose entries fall into two groups separated by a position `x` (everything of the first
@@ -56,5 +57,28 @@ theorem C06_onesided_applies_local (base : J) (d : Decision) (ld : List Op)
 
 /-- non-vacuity: local removes item 0, remote appends after item 2 of a 3-item list -/
 example : patchFrom ([SOp.removerange 0 1] ++ [SOp.addrange 3 [9]]) 0 [1, 2, 3] = [2, 3, 9] := by decide
+
+
+/-- **C06, "reports no conflict", for the model of the merger** (`NbdimeModel/MergeGeneric.lean`):
+    disjoint changes (decidable predicate `Merge.disjoint`, evaluated by the driver on the generated
+    ownership cases) never produce a conflicted decision, under any strategy table and oracle. -/
+theorem C06_model_no_conflict {E : Merge.Env} {base : J} {ld rd : List Op} {ds : List Merge.MD}
+    (hd : Merge.disjoint E.S base ld rd = true) (h : Merge.decideMerge E base ld rd = .ok ds) :
+    ∀ d ∈ ds, d.conflict = false :=
+  Merge.decideMerge_disjoint_noConflict hd h
+
+namespace C06ex
+open Merge
+def exE : Env := { O := { cmp := fun _ _ _ => .ok false, opcodes := fun _ _ => .ok [] }, cfg := defaultCfg,
+                   S := { table := [], transients := [] }, render := fun _ l _ => .ok (l, 0) }
+def exBase : J := .obj [("cells", .arr [.obj [("source", .str "a\nb\n".toList)], .obj [("source", .str "c\n".toList)], .int 7])]
+def exLd : List Op := [.patchK "cells" [.patchI 0 [.patchK "source" [.addrange 1 [.str "x\n".toList]]]]]
+def exRd : List Op := [.patchK "cells" [.patchI 1 [.replace "source" (.str "d\n".toList)], .removerange 2 1]]
+/-- non-vacuity: a nested pair of diffs meets the hypothesis and the merge succeeds with three decisions -/
+example : disjoint exE.S exBase exLd exRd = true := by decide +kernel
+example : (match decideMerge exE exBase exLd exRd with | .ok ds => ds.length | .error _ => 0) = 3 := by decide +kernel
+/-- ... and a pair that is not disjoint is rejected by the predicate -/
+example : disjoint exE.S exBase exLd [.patchK "cells" [.removerange 0 1]] = false := by decide +kernel
+end C06ex
 
 end Nbdime
